@@ -29,7 +29,13 @@ RULE = ("TLC enumerates every obstacle descriptor of MC_Occupancy.tla: dynamic o
         "of 9 reduced descriptors (one set-based with gap 1, one trajectory with gap 2) x "
         "occupancies_at_time_step (t 0..5 x 5 roles), obstacle_states_at_time_step (t 0..5), obstacles_by_role_and_type "
         "(5 roles x 4 types), obstacles_by_position_intervals (3 x 3 intervals x 4 role sets x times 0, 1, 3).  Plus seeded "
-        "random exact descriptors (longer trajectories, larger coordinates, gaps up to 5).  distinct_nontrivial = distinct dynamic "
+        "random exact descriptors (longer trajectories, larger coordinates, gaps up to 5).  HISTORY: <<target, "
+        "bystander>> x ONE public modification - obstacle / prediction / scenario.translate_rotate (3 lattice motions), "
+        "prediction.trajectory = another trajectory (2), prediction.shape = another shape (2), update_prediction (2) - "
+        "for trajectory targets (2 shapes x 2 (t0, gap) x 4 state kinds), set-based, no-prediction, static, phantom and "
+        "environment targets; each executed cold (modify, query) and warm (query, modify, query): occupancy_at_time / "
+        "state_at_time of the target, occupancies_at_time_step and obstacle_states_at_time_step for every t, two "
+        "position queries; expected answers are those of Modify(o, m) computed by the trace spec.  distinct_nontrivial = distinct dynamic "
         "descriptors with a prediction or an uncertain state + distinct scenarios with >= 2 obstacles.")
 ASSUMPTIONS = ["poses on the integer lattice with quarter-turn orientations; point-mass velocities on the 4 axis directions",
                "shapes have their centroid at the shape origin; shape groups are centred or used at q = 0 only "
@@ -39,6 +45,8 @@ ASSUMPTIONS = ["poses on the integer lattice with quarter-turn orientations; poi
                "polygonal regions are compared as vertex sets in doubled integer coordinates",
                "uncertain states: enclosure is required at the obligation poses only (corners + centre of the position "
                "region x start/mid/end of the orientation interval); discs are placed as shapely 64-gons",
+               "history: custom point-mass states (CustomState with velocity components only) are only translated, not "
+               "rotated (whether translate_rotate moves a state rigidly is C05's subject)",
                "obstacles_by_position_intervals: an occupancy without a centre (stored ShapeGroup) is an EITHER band; "
                "intervals are closed"]
 
@@ -116,6 +124,8 @@ def cases(ctx):
 
 
 def nontrivial(case):
+    if case["kind"] == "hist":
+        return json.dumps([case["S"][0], case["m"]], sort_keys=True)
     if case["kind"] == "sc":
         return ("sc",) + tuple(o["id"] for o in case["S"]) if len(case["S"]) >= 2 else None
     o = case["o"]
@@ -470,10 +480,113 @@ def _exec_sc(case):
     return {"ev": ev}
 
 
+def _mutator(m):
+    return m["via"] + ".translate_rotate" if m["k"] == "move" else m["k"]
+
+
+def _apply(m, sc, ob, o):
+    """the ONE public modification of a history case, on the real objects"""
+    import numpy as np
+    from commonroad.scenario.trajectory import Trajectory
+    if m["k"] == "move":
+        tr, ang = np.array([float(m["tx"]), float(m["ty"])]), (m["q"] % 4) * math.pi / 2
+        if m["via"] == "scenario":
+            sc.translate_rotate(tr, ang)
+        elif m["via"] == "prediction":
+            ob.prediction.translate_rotate(tr, ang)
+        else:
+            ob.translate_rotate(tr, ang)
+    elif m["k"] == "set_trajectory":
+        ob.prediction.trajectory = Trajectory(m["states"][0]["t"], [_state(x) for x in m["states"]])
+    elif m["k"] == "set_shape":
+        ob.prediction.shape = _shape(m["shape"])
+    elif m["k"] == "update_prediction":
+        ob.update_prediction(_prediction({"pred": m["pred"], "shape": o["shape"]}))
+    else:
+        raise ValueError("unknown modification %r" % (m,))
+
+
+def _exec_hist(case):
+    """cold: modify, then query; warm: query (fills caches), modify, query.  Events after the modification carry m;
+    their expected answers are those of the modified descriptor (computed by the trace spec)."""
+    from commonroad.common.util import Interval
+    from crv import gamma
+    S, m, S2, tmax = case["S"], case["m"], case["S2"], case["tmax"]
+    o, o2 = S[0], S2[0]                                             # the target of per-obstacle queries
+    ev = []
+    for variant in ("cold", "warm"):
+        suffix = "/after-%s/%s" % (_mutator(m), variant)
+        obs = [_build(x) for x in S]
+        sc = gamma.scenario()
+        sc.add_objects(obs)
+        ob = obs[0]
+
+        def occ_event(desc, t, extra, sfx):
+            try:
+                res = _occ_key(ob.occupancy_at_time(t))
+            except Exception as ex:
+                res = _exc(ex)
+            ev.append(dict({"op": "occupancy_at_time", "o": o, "t": t, "res": res,
+                            "sig": _sig("occupancy_at_time", desc, t) + sfx}, **extra))
+
+        def sc_occ_event(t, extra, sfx):
+            try:
+                res = {"k": "ok", "occs": [_occ_key(c) for c in sc.occupancies_at_time_step(t)]}
+            except Exception as ex:
+                res = _exc(ex)
+            ev.append(dict({"op": "occupancies_at_time_step", "S": S, "t": t, "role": "any", "res": res,
+                            "sig": "occupancies_at_time_step/role=any" + sfx}, **extra))
+
+        def pos_event(t, ix, iy, extra, sfx):
+            try:
+                res = {"k": "ok", "ids": [x.obstacle_id for x in sc.obstacles_by_position_intervals(
+                    [Interval(ix[0], ix[1]), Interval(iy[0], iy[1])], time_step=t)]}
+            except Exception as ex:
+                res = _exc(ex)
+            ev.append(dict({"op": "obstacles_by_position_intervals", "S": S, "ix": ix, "iy": iy,
+                            "roles": ["dynamic", "static"], "t": t, "res": res,
+                            "sig": "obstacles_by_position_intervals/roles=default/plain" + sfx}, **extra))
+        t1 = o2["t0"] + 1 + o2["pred"].get("g", 0)                   # first predicted step after the modification
+        if variant == "warm":
+            for t in range(0, tmax + 1):
+                occ_event(o, t, {}, "/warm-up")
+                sc_occ_event(t, {}, "/warm-up")
+            pos_event(t1, case["ivs"][1], case["ivs"][1], {}, "/warm-up")
+        try:
+            _apply(m, sc, ob, o)
+        except Exception as ex:
+            ev.append({"op": "occupancy_at_time", "o": o, "m": m, "t": o["t0"], "res": _exc(ex), "sig": "modify" + suffix})
+            continue
+        mm = {"m": m}
+        for t in range(0, tmax + 1):
+            occ_event(o2, t, mm, suffix)
+            if o["role"] != "environment":
+                try:
+                    res = _state_key(ob.state_at_time(t))
+                except Exception as ex:
+                    res = _exc(ex)
+                sig = "state_at_time/phantom" if o["role"] == "phantom" else \
+                    "state_at_time/%s/%s/t=%s" % (o2["role"], o2["pred"]["k"], _where(o2, t))
+                ev.append({"op": "state_at_time", "o": o, "m": m, "t": t, "res": res, "sig": sig + suffix})
+            sc_occ_event(t, mm, suffix)
+            try:
+                d = sc.obstacle_states_at_time_step(t)
+                res = {"k": "ok", "states": [dict(_state_key(x), id=i) for i, x in sorted(d.items())]}
+            except Exception as ex:
+                res = _exc(ex)
+            ev.append({"op": "obstacle_states_at_time_step", "S": S, "m": m, "t": t, "res": res,
+                       "sig": "obstacle_states_at_time_step" + suffix})
+        for iv in case["ivs"]:
+            pos_event(t1, iv, iv, mm, suffix)
+    return {"ev": ev}
+
+
 def execute(case):
     use_repo()
     import warnings
     warnings.simplefilter("ignore")
+    if case["kind"] == "hist":
+        return _exec_hist(case)
     return _exec_sc(case) if case["kind"] == "sc" else _exec_ob(case)
 
 
